@@ -40,6 +40,23 @@ extern "C" int h_matrix_rotation(unsigned which, unsigned d, double* a, double* 
   gsl_matrix_complex_free(U);
   return rc;
 }
+// the same unitary presented as a d x d block (offset 1,1) of a (d+2) x (d+2) matrix whose other entries hold junk: row stride != d
+extern "C" int h_matrix_rotation_view(unsigned which, unsigned d, double* a, double* ure, double* uim, double junk, double* o){
+  unsigned D=d+2;
+  gsl_matrix_complex* big=gsl_matrix_complex_alloc(D,D);
+  int rc=0;
+  try{
+    for(unsigned i=0;i<D;i++) for(unsigned j=0;j<D;j++) gsl_matrix_complex_set(big,i,j,gsl_complex_rect(junk,-junk));
+    for(unsigned i=0;i<d;i++) for(unsigned j=0;j<d;j++) gsl_matrix_complex_set(big,1+i,1+j,gsl_complex_rect(ure[i*d+j],uim[i*d+j]));
+    gsl_matrix_complex v = *big;           // what gsl_matrix_complex_submatrix(big,1,1,d,d).matrix contains
+    v.size1 = d; v.size2 = d; v.owner = 0; v.data = big->data + 2*(big->tda+1);
+    SU_vector A(d,a), R;
+    if(which==0) R=A.Rotate(&v); else if(which==1) R=A.UTransform(&v); else R=A.UDaggerTransform(&v);
+    if(R.Dim()!=d) rc=2; else copy_out(R,o);
+  }catch(...){ rc=1; }
+  gsl_matrix_complex_free(big);
+  return rc;
+}
 // history: the same matrix object is refilled in place between two calls (thread-local scratch copies must be refreshed);
 // d0>0 additionally runs a call in another dimension first (scratch holders must be re-sized)
 extern "C" int h_matrix_rotation_twice(unsigned which, unsigned d, unsigned d0, double* a, double* ure1, double* uim1, double* ure2, double* uim2, double* o){
